@@ -54,6 +54,7 @@ Record design := {
   next : list (string * vexp);
   wires : list (string * vexp);
   mem_writes : list (string * (vexp * (vexp * vexp)));
+  clocking : list (string * list string);      (* register / array -> sorted sensitivity list of its clocked block *)
   nx : nat }.
 
 (* evaluation of the entries of a design *)
